@@ -95,7 +95,7 @@ func sigConv(raw json.RawMessage, line string) string {
 var famConv = Register(&Family{Name: "conv", Spec: "Trace_MemViews", Cfg: "Trace_MemViews.cfg", Run: runConvCase, Sig: sigConv})
 
 func checkC20(c *Ctx) {
-	c.rule = "MC: all input shapes (whole string, substring of a larger string, empty) x conversion/append histories of 4 steps: no write lands in string memory when cap = len (and TLC finds the violation when the design keeps the backing array's capacity). TRACE: every shape (whole, substring, spare capacity, empty, nil) x lengths 0..5000 x append histories, and a grid of lengths (0..1 MiB) x spare capacities (0..1 MiB) of the backing array on the StringToBinary result; TLC checks len/cap/content/shared pointer and that appends never happen in place."
+	c.rule = "MC: all input shapes (whole string, substring of a larger string, empty) x conversion/append histories of 4 steps: no write lands in string memory when cap = len (and TLC finds the violation when the design keeps the backing array's capacity). TRACE: every shape (whole, substring, spare capacity, empty, nil) x lengths 0..5000 x append histories, and a grid of lengths (0..16 MiB, thorough 64 MiB, incl. 2^16 and 2^20 +-1) x spare capacities (0..1 MiB) of the backing array on the StringToBinary result; TLC checks len/cap/content/shared pointer and that appends never happen in place."
 	c.MC("MC_MemViews.tla", "MC_MemViews.cfg", 4)
 	var cases []json.RawMessage
 	rng := rand.New(rand.NewSource(c.Seed + 20))
@@ -111,17 +111,21 @@ func checkC20(c *Ctx) {
 	}
 	// small and large values inside small and large backing arrays (length x spare-capacity grid)
 	spares := []int{0, 1, 15, 16, 17, 100, 239, 240, 255, 256, 257, 1000, 4095, 4096, 65536, 1 << 20}
-	ns := []int{0, 1, 2, 3, 5, 8, 15, 16, 17, 24, 31, 32, 33, 63, 64, 65, 127, 128, 255, 256, 257, 1024, 4096, 70000}
+	ns := []int{0, 1, 2, 3, 5, 8, 15, 16, 17, 24, 31, 32, 33, 63, 64, 65, 127, 128, 255, 256, 257, 1024, 4096, 65535, 65536, 65537, 70000,
+		1<<20 - 1, 1 << 20, 1<<20 + 1, 3 << 20, 1<<24 + 5}
 	if c.Thorough() {
 		ns = ns[:0]
 		for n := 0; n <= 300; n++ {
 			ns = append(ns, n)
 		}
-		ns = append(ns, 1024, 4095, 4096, 4097, 70000, 1<<20)
+		ns = append(ns, 1024, 4095, 4096, 4097, 65535, 65536, 65537, 70000, 1<<20-1, 1<<20, 1<<20+1, 3<<20, 1<<24+5, 1<<26+1)
 	}
 	for _, sh := range []string{"sub", "spare"} {
 		for _, n := range ns {
 			for _, sp := range spares {
+				if n > 1<<20 && sp != 0 && sp != 17 {
+					continue
+				}
 				cases = append(cases, mustJSON(ConvCase{Shape: sh, N: n, Off: n % 3, Spare: sp, Adds: []int{1}}))
 			}
 		}
@@ -296,6 +300,33 @@ func runIndepCase(raw json.RawMessage, w *TraceWriter) {
 		}
 		w.Ev("mut", "what", "reader-released-and-buffers-reused", "intact", allIntact(), "inputintact", bytes.Equal(in, inCopy))
 	}
+	// 1c. the stream reader object was recycled: whoever gets it from the pool next decodes OTHER data of the same
+	// shape (twice, so that a per-reader scratch area is certainly overwritten); earlier results must not change
+	if c.API != "buffer" {
+		var in2 []byte
+		for i, n := range c.Lens {
+			in2 = append(in2, byte(n>>24), byte(n>>16), byte(n>>8), byte(n))
+			in2 = append(in2, PatBytes(i+131, 7, n)...)
+		}
+		for rep := 0; rep < 2; rep++ {
+			rd2 := bufiox.NewBytesReader(in2)
+			br2 := thrift.NewBufferReader(rd2)
+			for i := range c.Lens {
+				var err error
+				if c.Kinds[i%len(c.Kinds)] == 0 {
+					_, err = br2.ReadString()
+				} else {
+					_, err = br2.ReadBinary()
+				}
+				if err != nil {
+					break
+				}
+			}
+			br2.Recycle()
+			rd2.Release(nil)
+		}
+		w.Ev("mut", "what", "reader-recycled-and-reused-for-other-data", "intact", allIntact(), "inputintact", bytes.Equal(in, inCopy))
+	}
 	// 2. append to and modify every returned byte slice; the input and all other results must stay intact
 	rng := rand.New(rand.NewSource(c.Seed))
 	for i := range recs {
@@ -346,7 +377,7 @@ func sigIndep(raw json.RawMessage, line string) string {
 var famIndep = Register(&Family{Name: "indep", Spec: "Trace_MemViews", Cfg: "Trace_MemViews.cfg", Run: runIndepCase, Sig: sigIndep})
 
 func checkC16(c *Ctx) {
-	c.rule = "MC: span allocator regions are pairwise disjoint, in bounds and have cap = len over request runs that wrap the span (scaled span size), private allocation beyond the span size. TRACE: decode runs of strings/binaries with lengths from every span class (0, <128, 128..128KiB, larger) incl. long runs that wrap the 1 MiB span, buffer and stream readers (over an io.Reader source and over the input slice itself), both SetSpanCache settings; every result's memory region [addr, addr+cap) must be disjoint from the input and from every other result, results must be unchanged after the input is overwritten, after the stream reader is released with unread bytes and the pool's buffers are refilled by another user, and after every other result is appended to and modified, and values must be identical with the span cache on and off."
+	c.rule = "MC: span allocator regions are pairwise disjoint, in bounds and have cap = len over request runs that wrap the span (scaled span size), private allocation beyond the span size. TRACE: decode runs of strings/binaries with lengths from every span class (0, <128, 128..128KiB, larger) incl. long runs that wrap the 1 MiB span, buffer and stream readers (over an io.Reader source and over the input slice itself), both SetSpanCache settings; every result's memory region [addr, addr+cap) must be disjoint from the input and from every other result, results must be unchanged after the input is overwritten, after the stream reader is released with unread bytes and the pool's buffers are refilled by another user, after the recycled reader object decoded other data, and after every other result is appended to and modified, and values must be identical with the span cache on and off."
 	c.MC("MC_MemViews.tla", "MC_MemViews.cfg", 4)
 	var cases []json.RawMessage
 	rng := rand.New(rand.NewSource(c.Seed + 16))
